@@ -190,6 +190,12 @@ func (d *OrderedDaemon) BackgroundWorker(name string, handler WorkerFunc, order 
 	d.lock.Lock()
 	defer d.lock.Unlock()
 
+	// re-check under the lock: shutdown sets the stopped flag before it takes its snapshot of the workers
+	// under the read lock, so a worker that is registered from here on is part of that snapshot.
+	if d.IsStopped() {
+		return ErrDaemonAlreadyStopped
+	}
+
 	exWorker, workerExistsAlready := d.workers[name]
 	if workerExistsAlready {
 		if !d.running.Load() {
